@@ -141,6 +141,13 @@ def main(argv):
                 problems.append(f"not discharged: {r.name} ({r.status})")
             else:
                 n_proved += 1
+        if k.first_solver:
+            wrong = [r.name for r in real if r.attempts and r.attempts[0]["solver"] != k.first_solver]
+            if wrong or not any(r.attempts for r in real):
+                problems.append(f"per-contract portfolio ignored: first attempt not by {k.first_solver} on {wrong[:2]}")
+            late = [r.name for r in guards if r.attempts and r.attempts[0]["solver"] != "z3-5.1"]
+            if late:
+                problems.append(f"canaries must keep the default solver order: {late[:2]}")
         for s in k.must_fail:
             if c.key not in gen_err and not any(s in r.name for r in real):
                 problems.append(f"no obligation matches must_fail pattern '{s}'")
@@ -189,6 +196,15 @@ def main(argv):
     _h_ok = z3.ForAll([_y], z3.Implies(_f(_y) > _a, z3.Exists([_x], _f(_x) == _y + 1)))
     _h_share = z3.ForAll([_y], z3.Implies(_f(_y) > _a, z3.Exists([_x], _f(_x) == _y + 3)))
     unit = [alpha_eq(_g1, _h_bad) is False, alpha_eq(_g1, _h_ok) is True, alpha_eq(_g1, _h_share) is False, alpha_eq(_h_bad, _h_share) is False]
+    from pyvc.solve import PORTFOLIO, ordered_portfolio
+
+    _op = ordered_portfolio(["cvc5", "z3-4.8"])
+    unit.append(_op[:2] == ("cvc5", "z3-4.8") and sorted(_op) == sorted(PORTFOLIO) and ordered_portfolio(None) == PORTFOLIO)
+    try:
+        ordered_portfolio(["z4"])
+        unit.append(False)
+    except ValueError:
+        unit.append(True)
     if all(unit) and not pats:
         print(f"ok      unit alpha_eq                                                          {len(unit)} comparisons")
     elif not pats:
